@@ -3962,6 +3962,26 @@ fn main() {
             println!("keys={}", keys.len());
             println!("lost={}", lost);
         }
+        // short_write_flush : table files accept at most 512 bytes per write call (short writes, as std::io::Write allows); 300 entries with
+        // 120-byte values are flushed: the flush has to succeed and every key has to be readable from the table
+        "short_write_flush" => {
+            use raindb::{ReadOptions, WriteOptions};
+            let fs = rdbv::faultfs::FaultFs::new();
+            let mut o = raindb::DbOptions::with_memory_env();
+            o.filesystem_provider = std::sync::Arc::new(fs.clone());
+            o.db_path = "db".to_string();
+            o.create_if_missing = true;
+            let db = raindb::DB::open(o.clone()).expect("open");
+            fs.short_writes(".rdb", 512);
+            let noise = |n: usize, seed: u32| -> Vec<u8> { let mut x = seed; (0..n).map(|_| { x = x.wrapping_mul(1664525).wrapping_add(1013904223); (x >> 24) as u8 }).collect() };
+            let keys: Vec<Vec<u8>> = (0..300u32).map(|i| format!("k{:04}", i).into_bytes()).collect();
+            for (i, k) in keys.iter().enumerate() { db.put(WriteOptions::default(), k.clone(), noise(120, i as u32)).unwrap(); }
+            let flushed = db.flush_for_verif();
+            let wrong = keys.iter().enumerate().filter(|(i, k)| db.get(ReadOptions::default(), k).map(|v| v != noise(120, *i as u32)).unwrap_or(true)).count();
+            println!("flushed={}", flushed);
+            println!("tables={}", v::table_numbers(&o).len());
+            println!("wrong={}", wrong);
+        }
         // manifest_codec : edits of trivial moves (file n deleted at level L, added at level L + 1) and a mixed edit are encoded
         // and decoded by the real codec
         "manifest_codec" => {
